@@ -418,3 +418,59 @@ def l4_programs(ty="i32"):
         [["ret", "p1"]],
         [["bin", "-", "p1", "%1", ty], ["call", "@f", ["%2", "p0"], ty], ["ret", "%3"]]]}]})
     return progs
+
+
+# --------------------------------------------------------------------------- L5: one program per shortcut visible in the passes
+
+def l5_programs():
+    """Targeted tiny programs: a value that a pass replaces (x+0, x*1, folded constant, forwarded load, CSE duplicate) is used
+    twice by one consumer; float identities that are not identities (-0.0 + 0.0, reassociation); casts of float constants."""
+    P = []
+
+    def fn(name, ty, body, params=None, ext=None, glob=False):
+        d = {"name": "l5_" + name, "functions": [{"name": "f", "ret": ty, "params": params or [ty, ty], "blocks": body if isinstance(body[0][0], list) else [body]}]}
+        if ext:
+            d["externals"] = ext
+        if glob:
+            d["globals"] = [["g", 8, 8, None]]
+        P.append(d)
+
+    for ty, zero, one in (("i32", 0, 1), ("u8", 0, 1), ("f64", 0.0, 1.0)):
+        fn("addzero_twice_" + ty, ty, [["const", ty, zero], ["bin", "+", "p0", "%0", ty], ["bin", "*", "%1", "%1", ty], ["ret", "%2"]])
+        fn("zeroadd_twice_" + ty, ty, [["const", ty, zero], ["bin", "+", "%0", "p0", ty], ["bin", "-", "%1", "%1", ty], ["ret", "%2"]])
+        fn("mulone_twice_" + ty, ty, [["const", ty, one], ["bin", "*", "p0", "%0", ty], ["bin", "+", "%1", "%1", ty], ["ret", "%2"]])
+        fn("addzero_" + ty, ty, [["const", ty, zero], ["bin", "+", "p0", "%0", ty], ["ret", "%1"]])
+        fn("zeroadd_" + ty, ty, [["const", ty, zero], ["bin", "+", "%0", "p0", ty], ["ret", "%1"]])
+        fn("addzero_call2_" + ty, ty, [["const", ty, zero], ["bin", "+", "p0", "%0", ty], ["call", "@ext2", ["%1", "%1"], ty], ["ret", "%2"]],
+           ext=[["ext2", [ty, ty], ty]])
+        fn("addzero_cjmp_" + ty, ty, [[["const", ty, zero], ["bin", "+", "p0", "%0", ty], ["cjmp", "%1", "==", "%1", 1, 2]], [["ret", "p0"]], [["ret", "p1"]]])
+        fn("addzero_phi_" + ty, ty, [[["const", ty, zero], ["bin", "+", "p0", "%0", ty], ["cjmp", "p0", "<", "p1", 1, 2]], [["jmp", 3]], [["jmp", 3]],
+                                     [["phi", ty, [[1, "%1"], [2, "%1"]]], ["ret", "%2"]]])
+        fn("fwd_load_twice_" + ty, ty, [["alloc", 8, 8], ["addr", "%0"], ["store", "p0", "%1"], ["load", ty, "%1"], ["bin", "*", "%2", "%2", ty], ["ret", "%3"]])
+        fn("cse_twice_" + ty, ty, [["bin", "*", "p0", "p1", ty], ["bin", "*", "p0", "p1", ty], ["bin", "-", "%1", "%1", ty], ["bin", "+", "%2", "%0", ty], ["ret", "%3"]])
+        fn("chain_add_" + ty, ty, [["const", ty, one], ["const", ty, one], ["bin", "+", "p0", "%0", ty], ["bin", "+", "%2", "%1", ty], ["bin", "*", "%3", "%3", ty], ["ret", "%4"]])
+    # float reassociation: (y + 2^53) + (-2^53)  !=  y + 0  for y = 1.0
+    big = 9007199254740992.0
+    fn("chain_float_add", "f64", [["const", "f64", big], ["const", "f64", -big], ["bin", "+", "p0", "%0", "f64"], ["bin", "+", "%2", "%1", "f64"], ["ret", "%3"]])
+    fn("chain_float_sub", "f64", [["const", "f64", big], ["const", "f64", -big], ["bin", "-", "p0", "%0", "f64"], ["bin", "-", "%2", "%1", "f64"], ["ret", "%3"]])
+    # constants +0.0 and -0.0 are different values (CSE / folding must not merge them)
+    fn("zero_signs", "f64", [["const", "f64", 0.0], ["const", "f64", -0.0], ["bin", "/", "p0", "%0", "f64"], ["bin", "/", "p0", "%1", "f64"], ["bin", "-", "%2", "%3", "f64"], ["ret", "%4"]])
+    fn("int_consts_cse", "i32", [["const", "i32", 7], ["const", "i32", 7], ["bin", "+", "%0", "p0", "i32"], ["bin", "+", "%1", "p0", "i32"], ["bin", "*", "%2", "%3", "i32"], ["ret", "%4"]])
+    # casts of constants
+    for v in (2.7, -2.7, 0.5, -0.5, 1e9):
+        P.append({"name": "l5_cast_f2i", "functions": [{"name": "f", "ret": "i32", "params": ["i32", "i32"], "blocks": [[["const", "f64", v], ["cast", "i32", "%0"], ["bin", "+", "%1", "p0", "i32"], ["ret", "%2"]]]}]})
+    for v in (16777217, -3, 2 ** 31 - 1):
+        P.append({"name": "l5_cast_i2f", "functions": [{"name": "f", "ret": "f32", "params": ["f32", "f32"], "blocks": [[["const", "i32", v], ["cast", "f32", "%0"], ["bin", "+", "%1", "p0", "f32"], ["ret", "%2"]]]}]})
+    P.append({"name": "l5_cast_f64_f32", "functions": [{"name": "f", "ret": "f32", "params": ["f32", "f32"], "blocks": [[["const", "f64", 0.1], ["cast", "f32", "%0"], ["bin", "*", "%1", "p0", "f32"], ["ret", "%2"]]]}]})
+    # CSE across a redefinition of memory / across a call
+    fn("cse_loads_store_between", "i32", [["alloc", 4, 4], ["addr", "%0"], ["store", "p0", "%1"], ["load", "i32", "%1"], ["store", "p1", "%1"], ["load", "i32", "%1"],
+                                          ["bin", "-", "%2", "%3", "i32"], ["ret", "%4"]])
+    fn("cse_calls", "i32", [["call", "@ext", ["p0"], "i32"], ["call", "@ext", ["p0"], "i32"], ["bin", "+", "%0", "%1", "i32"], ["ret", "%2"]], ext=[["ext", ["i32"], "i32"]])
+    fn("volatile_loads", "i32", [["load", "i32", "@g", True], ["load", "i32", "@g", True], ["bin", "+", "%0", "%1", "i32"], ["ret", "%2"]], glob=True)
+    fn("store_store_load", "i32", [["store", "p0", "@g"], ["store", "p1", "@g"], ["load", "i32", "@g"], ["ret", "%0"]], glob=True)
+    fn("store_load_other_type", "i32", [["const", "u8", 7], ["store", "p0", "@g"], ["store", "%0", "@g"], ["load", "i32", "@g"], ["ret", "%1"]], glob=True)
+    fn("unused_call", "i32", [["call", "@ext", ["p0"], "i32"], ["ret", "p1"]], ext=[["ext", ["i32"], "i32"]])
+    fn("unused_div", "i32", [["bin", "/", "p0", "p1", "i32"], ["ret", "p1"]])
+    fn("shift_const_oob", "i32", [["const", "i32", 40], ["const", "i32", 1], ["bin", "<<", "%1", "%0", "i32"], ["ret", "p0"]])
+    fn("mod_const_zero", "i32", [["const", "i32", 0], ["const", "i32", 5], ["bin", "%", "%1", "%0", "i32"], ["ret", "p0"]])
+    return P
